@@ -22,6 +22,8 @@ import (
 	"github.com/sarchlab/akita/v5/timing"
 
 	"verif/props/emem"
+	"verif/props/enoc"
+	"verif/props/evm"
 	"verif/sim/kit"
 )
 
@@ -29,6 +31,8 @@ import (
 // for the generated message / event values.
 type C08Case struct {
 	Cfg  emem.Config `json:"cfg"`
+	VM   *evm.Cfg    `json:"vm,omitempty"`
+	Net  *enoc.Net   `json:"net,omitempty"`
 	Cut  uint64      `json:"cut"`
 	Seed uint64      `json:"seed"`
 	N    int         `json:"n"`
@@ -414,6 +418,13 @@ func genC08(r *kit.Rand, tier kit.Tier) C08Case {
 	c.Cfg.EventCap = 60000
 	c.Cut = uint64(r.PickInt(1000, 3000, 7000, 15000, 40000, 100000))
 
+	switch r.Intn(5) {
+	case 0:
+		c.VM = genSimVM(r, tier)
+	case 1:
+		c.Net = genSimNet(r)
+	}
+
 	if tier == kit.Thorough {
 		c.N = 30
 	}
@@ -432,7 +443,8 @@ func execC08(c C08Case, env *kit.Env) kit.Outcome {
 	}
 
 	// states reached by a workload
-	a := newSim(&c.Cfg, env, true)
+	u := C06Case{Cfg: c.Cfg, VM: c.VM, Net: c.Net}
+	a := u.build(env, true)
 	a.guarded(func() { _ = a.eng.RunUntil(timing.VTimeInPicoSec(c.Cut)) })
 
 	if a.capHit {
@@ -450,7 +462,7 @@ func execC08(c C08Case, env *kit.Env) kit.Outcome {
 		return out
 	}
 
-	b := newSim(&c.Cfg, env, false)
+	b := u.build(env, false)
 
 	defer func() {
 		a.close()
@@ -493,15 +505,33 @@ func execC08(c C08Case, env *kit.Env) kit.Outcome {
 	}
 
 	// port buffers, drained on both sides
-	names := make([]string, 0, len(a.asm.Ports))
-	for n := range a.asm.Ports {
+	aPorts, bPorts := map[string]messaging.Port{}, map[string]messaging.Port{}
+
+	for _, p := range a.sim.Ports() {
+		if mp, ok := p.(messaging.Port); ok {
+			aPorts[mp.Name()] = mp
+		}
+	}
+
+	for _, p := range b.sim.Ports() {
+		if mp, ok := p.(messaging.Port); ok {
+			bPorts[mp.Name()] = mp
+		}
+	}
+
+	names := make([]string, 0, len(aPorts))
+	for n := range aPorts {
 		names = append(names, n)
 	}
 
 	sort.Strings(names)
 
 	for _, n := range names {
-		pa, pb := a.asm.Ports[n], b.asm.Ports[n]
+		pa, pb := aPorts[n], bPorts[n]
+		if pb == nil {
+			out.Violation = kit.Violate("state-round-trip", "C08:port-missing-in-rebuilt-simulation", "port %s exists in the saved simulation and not in the rebuilt one", n)
+			return out
+		}
 
 		for _, get := range []func(p messaging.Port) messaging.Msg{
 			func(p messaging.Port) messaging.Msg { return p.RetrieveIncoming() },
@@ -533,9 +563,22 @@ func execC08(c C08Case, env *kit.Env) kit.Outcome {
 	out.Probe("buffered-messages-compared", busy)
 	out.Events = uint64(a.events)
 	out.SimTimePs = uint64(a.eng.CurrentTime())
-	out.Shape = fmt.Sprintf("%s|%d|%d|%d", emem.Describe(&c.Cfg), c.Cut, busy, c.Seed%1000)
+	desc := emem.Describe(&c.Cfg)
+
+	switch {
+	case c.VM != nil:
+		desc = fmt.Sprintf("vm-stack tlbs=%d mmucache=%v gmmu=%v reqs=%d", len(c.VM.TLBs), c.VM.MMUCache, c.VM.GMMU, len(c.VM.Reqs))
+		out.Probe("assembly:vm-stack", 1)
+	case c.Net != nil:
+		desc = enoc.Describe(c.Net)
+		out.Probe("assembly:network", 1)
+	default:
+		out.Probe("assembly:memory-hierarchy", 1)
+	}
+
+	out.Shape = fmt.Sprintf("%s|%d|%d|%d", desc, c.Cut, busy, c.Seed%1000)
 	out.NonTrivial = busy > 0
-	out.Sample = map[string]any{"assembly": emem.Describe(&c.Cfg), "cut": c.Cut, "states": states, "buffered_messages": busy, "generated_per_type": c.N}
+	out.Sample = map[string]any{"assembly": desc, "cut": c.Cut, "states": states, "buffered_messages": busy, "generated_per_type": c.N}
 
 	return out
 }
@@ -551,10 +594,10 @@ func (h evTypeHook) Func(ctx hookCtx) {
 func init() {
 	kit.Register(kit.Spec[C08Case]{
 		ID: "C08", Level: "exploration",
-		Rule: "(a) states reached by workloads: a random memory hierarchy on a real simulation.Simulation is run to a seeded cut, saved and loaded into a rebuilt simulation; every component's State (by reflection, including the buffers, pipelines and directory structures embedded in it) and every message buffered in every port (drained on both sides) must be equal with the same concrete types; " +
+		Rule: "(a) states reached by workloads: a random memory hierarchy (or, in two runs out of five, a translation stack or a switched network) on a real simulation.Simulation is run to a seeded cut, saved and loaded into a rebuilt simulation; every component's State (by reflection, including the buffers, pipelines and directory structures embedded in it) and every message buffered in every port (drained on both sides) must be equal with the same concrete types; " +
 			"(b) generated values: 6 (thorough 30) seeded values of each of the 12 library message types (mem, mem.control, vm, datamover, packetization; nil vs empty slices, zero values, extreme integers, hostile strings) go through a port's incoming and outgoing buffers and a port checkpoint into a fresh port, seeded LRU sets (also between an eviction and the next visit), bounded buffers and pipelines with dwelling items go through their JSON form, and seeded events of the 3 registered event types go through an engine checkpoint into a fresh engine, which must save identically and dispatch the same events; " +
 			"equality = reflect.DeepEqual except that nil and empty slices/maps are equal; distinct = hash of (assembly, cut, buffered messages, seed); non-trivial = at least one buffered message compared",
-		Assumptions: []string{"nil and empty slices/maps are treated as equal (omitempty fields do not keep the distinction and no component depends on it)", "the generated half has no schedule in it; it shares the harness because the checkpoint API of ports and engines is the only public seam", "VM and network component states are reached only once those assemblies are part of this generator"},
+		Assumptions: []string{"nil and empty slices/maps are treated as equal (omitempty fields do not keep the distinction and no component depends on it)", "the generated half has no schedule in it; it shares the harness because the checkpoint API of ports and engines is the only public seam", "two runs in five use a translation stack or a switched network instead of the memory hierarchy (same restrictions as in C06)"},
 		Real:        []string{"internal/codec", "messaging msg codec + port checkpoint", "timing event codec + engine checkpoint", "modeling.Component checkpoint", "queueing buffer/pipeline JSON", "cache directory / MSHR state"},
 		Stubs:       []string{"checkpointable scripted requesters"},
 		FaultKinds:  []string{"crash-restart(checkpoint-cut)"},
@@ -563,6 +606,10 @@ func init() {
 		Gen:         genC08, Exec: execC08,
 		Shrink: func(c C08Case) []C08Case {
 			var out []C08Case
+			if c.VM != nil || c.Net != nil {
+				return out
+			}
+
 			for _, q := range emem.ShrinkConfig(c.Cfg) {
 				out = append(out, C08Case{Cfg: q, Cut: c.Cut, Seed: c.Seed, N: c.N})
 			}
